@@ -51,13 +51,15 @@ def check(run):
             v = rng.choice(["maj=1,min=0,priv=1"] * 6 + ["maj=1,min=0", "maj=1,min=1,priv=1", "maj=2,min=0,priv=1", "maj=1,min=0,priv=2"])
             line = re.sub(r"FP:\S+", "FP:" + v, s[0])
             sessions.append((line, s[1], s[2]))
-        res = E.run_sessions(run, sessions, need_lean=False)
+        res = E.run_sessions(run, sessions, need_rd=False)
         for (line, ref, _), r in zip(sessions, res):
             if r["results"] is None:
                 continue
             for oi, (data, err) in enumerate(r["plain"]):
-                if data and r["rd"].get(oi, "").endswith(" EOF"):
-                    pool.append({"data": data, "dump": r["rd"][oi][2:]})
+                lg = r["lean"].get(oi) or ""
+                # what an input contains is taken from the INDEPENDENT parse, not from the library's reader
+                if data and lg.startswith("S F{") and " EOF #" in lg:
+                    pool.append({"data": data, "dump": lg[2:].split(" #")[0]})
         cases = []
         for t in range(ntuples):
             members = []
